@@ -2,7 +2,7 @@
 (* Trace validation for SSBridge: T.close is the within-limit relation recomputed from the     *)
 (* coordinates written to the input file (file order), T.obs the state of every CYS residue on  *)
 (* the biomolecule the real pipeline returned: partner index (0 = not bonded), cyx (force-field *)
-(* name is CYX), hg (thiol hydrogen present).  The spec's scan is run on T.close; acc = (its    *)
+(* name is CYX), hg (thiol hydrogen present), cym (given as thiolate).  The spec's scan is run on T.close; acc = (its    *)
 (* bonded function equals the observed partners); the C13 clauses are evaluated on T.obs.       *)
 EXTENDS Naturals, Sequences, FiniteSets, TLC, Json, IOUtils, SequencesExt
 CONSTANT N
@@ -17,7 +17,10 @@ TNext == S!Next /\ UNCHANGED tid
 TSpec == TInit /\ [][TNext]_<<close, i, partners, bonded, pc, tid>>
 ObsPartner == [c \in 1..N |-> T.obs[c].partner]
 Consistent(c) ==  \* the three observables of one residue agree with each other
-  (T.obs[c].partner # 0) = T.obs[c].cyx /\ T.obs[c].cyx = ~T.obs[c].hg
+  \* (a cysteine given as the thiolate CYM has no HG; bridged, it is CYX like any other)
+  /\ (T.obs[c].partner # 0) = T.obs[c].cyx
+  /\ (T.obs[c].cyx => ~T.obs[c].hg)
+  /\ (~T.obs[c].cyx => (T.obs[c].hg \/ T.obs[c].cym))
 Report == pc = "done" =>
   PrintT(<<"T", T.id, bonded = ObsPartner, SetToSeq(S!Bad(close, ObsPartner)),
            SetToSeq({c \in 1..N : ~Consistent(c)})>>)
